@@ -103,7 +103,23 @@ func frontKind(op *Op) string {
 func ModelForFront(n *Node, op *Op, res *Result) *Model {
 	o := *op
 	if op.Kind == "parse" {
-		o.Input = AsSeen(frontKind(op), op.Input)
+		fk := frontKind(op)
+		o.Input = AsSeen(fk, op.Input)
+		if root := n; (fk == "form" || fk == "query") && o.Input.K == "m" {
+			// a parameter spelled `key[]` is a list whatever the number of values sent
+			for root.Kind == "ptr" {
+				root = root.Elem
+			}
+			for _, f := range root.Fields {
+				if t, ok := f.Tag(fk); ok && strings.HasSuffix(t, "[]") {
+					for i := range o.Input.M {
+						if o.Input.M[i].K == f.Key && o.Input.M[i].V.K != "l" {
+							o.Input.M[i].V = VL(o.Input.M[i].V)
+						}
+					}
+				}
+			}
+		}
 	}
 	return ModelFor(n, &o, res)
 }
@@ -163,6 +179,18 @@ func genC10(r *Rng, tier string) *World {
 			fs = []*Field{{Key: "a", N: &Node{Kind: "string", Req: true}}}
 		}
 		root.Fields = fs
+		// list parameters spelled `key[]` (the documented array notation): the brackets are part of the key, hence of the path
+		for _, f := range root.Fields {
+			if f.N.Kind == "slice" && r.P(0.4) {
+				var keep []KV
+				for _, t := range f.Tags {
+					if t.K != "form" && t.K != "query" {
+						keep = append(keep, t)
+					}
+				}
+				f.Tags = append(keep, KV{"form", VS(f.Key + "[]")}, KV{"query", VS(f.Key + "[]")})
+			}
+		}
 	}
 	// IssuePath overrides on some tests
 	if r.P(0.3) {
@@ -233,6 +261,16 @@ func genC10(r *Rng, tier string) *World {
 			}
 			if front == "map" {
 				v = NonEmptyRecords(root, v)
+			}
+			if flat && v.K == "m" {
+				// under `key[]` one value is a list of one by definition: say so in the record
+				for i := range v.M {
+					for _, f := range root.Fields {
+						if t, ok := f.Tag("form"); ok && f.Key == v.M[i].K && strings.HasSuffix(t, "[]") && v.M[i].V.K != "l" && !v.M[i].V.IsNil() {
+							v.M[i].V = VL(v.M[i].V)
+						}
+					}
+				}
 			}
 			op.Input = v
 			switch front {
@@ -577,7 +615,8 @@ func catalogue() []cell {
 // "i18n:<default language>:<language this execution asks for>[:<custom language key>]"
 // "i18nalt:..." installs other texts for the same languages (every template ends in " [v2]").
 var fmtConfigs = []string{"default", "i18n:en:", "i18n:en:es", "i18n:en:en", "i18n:es:", "i18n:en:xx", "i18n:es:xx", "custom", "i18n:en:es:locale", "i18n:es:en:locale",
-	"i18nalt:en:", "i18nalt:en:es", "i18nalt:es:en", "i18nalt:es:xx", "i18n:en::locale", "i18n:es::locale"}
+	"i18nalt:en:", "i18nalt:en:es", "i18nalt:es:en", "i18nalt:es:xx", "i18n:en::locale", "i18n:es::locale",
+	"i18nreg:en:pt", "i18nreg:en:pt-BR", "i18nreg:en:pt-PT", "i18nreg:en:pt-AO", "i18n:en:es-MX", "i18n:es:en-GB"}
 
 var altLangMaps = func() map[string]zconst.LangMap {
 	out := map[string]zconst.LangMap{}
@@ -594,9 +633,33 @@ var altLangMaps = func() map[string]zconst.LangMap {
 	return out
 }()
 
+func isI18n(cfg string) bool {
+	return strings.HasPrefix(cfg, "i18n:") || strings.HasPrefix(cfg, "i18nalt:") || strings.HasPrefix(cfg, "i18nreg:")
+}
+
+// regional variants of one base language, the base itself not installed: asking for the base (or for a variant that is
+// not installed) is asking for a language that is not there - the default language answers
+var regLangMaps = func() map[string]zconst.LangMap {
+	out := map[string]zconst.LangMap{"en": en.Map}
+	for lang, mark := range map[string]string{"pt-BR": " [br]", "pt-PT": " [pt]"} {
+		cp := zconst.LangMap{}
+		for t, codes := range es.Map {
+			cp[t] = map[zconst.ZogIssueCode]string{}
+			for c, msg := range codes {
+				cp[t][c] = msg + mark
+			}
+		}
+		out[lang] = cp
+	}
+	return out
+}()
+
 func langMapsOf(cfg string) map[string]zconst.LangMap {
 	if strings.HasPrefix(cfg, "i18nalt:") {
 		return altLangMaps
+	}
+	if strings.HasPrefix(cfg, "i18nreg:") {
+		return regLangMaps
 	}
 	return map[string]zconst.LangMap{"en": en.Map, "es": es.Map}
 }
@@ -693,7 +756,7 @@ func genC11(r *Rng, tier string) *World {
 		op := &w.Tasks[0][i]
 		if op.Schema == 0 && (op.Kind == "parse" || op.Kind == "validate") {
 			f := fmtConfigs[w.Params["fmt"]]
-			if strings.HasPrefix(f, "i18n:") || strings.HasPrefix(f, "i18nalt:") {
+			if isI18n(f) {
 				parts := strings.Split(f, ":")
 				key := "lang"
 				if len(parts) > 3 {
@@ -731,7 +794,7 @@ func installFormatter(cfg string) {
 	switch {
 	case cfg == "custom":
 		conf.IssueFormatter = func(e *z.ZogIssue, c z.Ctx) { e.SetMessage("GLOBAL:" + e.Code) }
-	case strings.HasPrefix(cfg, "i18n:"), strings.HasPrefix(cfg, "i18nalt:"):
+	case isI18n(cfg):
 		parts := strings.Split(cfg, ":")
 		def := parts[1]
 		if len(parts) > 3 {
@@ -789,7 +852,7 @@ func runC11(x *X) *Violation {
 		// which language map applies to this execution?
 		var lm zconst.LangMap
 		switch {
-		case strings.HasPrefix(cfg, "i18n:"), strings.HasPrefix(cfg, "i18nalt:"):
+		case isI18n(cfg):
 			parts := strings.Split(cfg, ":")
 			lang := parts[1]
 			key := "lang"
@@ -797,7 +860,7 @@ func runC11(x *X) *Violation {
 				key = parts[3]
 			}
 			for _, o := range op.Opts {
-				if o.K == "ctx" && o.Key == key && (o.Val.S == "en" || o.Val.S == "es") {
+				if _, installed := langMapsOf(cfg)[o.Val.S]; o.K == "ctx" && o.Key == key && o.Val.K == "s" && installed {
 					lang = o.Val.S
 				}
 			}
